@@ -212,22 +212,26 @@ def concurrent_pairs(v, ctx, bins, classes):
             srv, sb, cli = pair.srv, pair.sb, pair.cli
             # the first transfer is long enough (hundreds of ms) for the second client to arrive in its middle
             combos = [(("upload", 1428, 1, 12_000_000), ("download", 512, 1, 3000)), (("upload", 1024, 1, 8_000_000), ("upload", 512, 2, 5000)),
-                      (("download", 8192, 1, 40_000_000), ("upload", 8, 16, 2000)), (("upload", 65464, 1, 60_000_000), ("download", 512, 1, 700))]
+                      (("download", 8192, 1, 40_000_000), ("upload", 8, 16, 2000)), (("upload", 65464, 1, 60_000_000), ("download", 512, 1, 700)),
+                      # same directory, same stem, different extension (and a name without extension)
+                      (("upload", 1428, 1, 12_000_000, "fw.bin"), ("upload", 512, 2, 5000, "fw.sig")),
+                      (("download", 8192, 1, 40_000_000, "img.tar.gz"), ("download", 512, 1, 3000, "img.tar.xz")),
+                      (("upload", 1024, 1, 8_000_000, "boot"), ("upload", 512, 1, 700, "boot.cfg"))]
             for ci, (a, b) in enumerate(combos):
                 n += 1
                 results = {}
 
                 prepared = {}
                 for tag, spec in (("a", a), ("b", b)):
-                    kind, bsz, w, size = spec
+                    kind, bsz, w, size = spec[:4]
                     content = os.urandom(size) if size > 1_000_000 else N.keyed_content(f"cc-{single}-{ci}-{tag}", size)
-                    name = f"cc{ci}{tag}.bin"
+                    name = spec[4] if len(spec) > 4 else f"cc{ci}{tag}.bin"
                     write(os.path.join(cli if kind == "upload" else sb["srv"], name), content)
                     prepared[tag] = (content, name)
 
                 def go(tag, spec):
                     t_start = time.time()
-                    kind, bsz, w, size = spec
+                    kind, bsz, w, size = spec[:4]
                     content, name = prepared[tag]
                     common = ["-i", "127.0.0.1", "-p", str(srv.port), "-b", str(bsz), "-w", str(w), "-t", "2"]
                     if kind == "upload":
